@@ -579,6 +579,9 @@ def main(argv):
                     elif r["name"] == "cli_contract":
                         cand = bf["candidate"]
                         clause = "command-line contract: %s" % "; ".join(bf["problems"])[:300]
+                    elif r["name"] == "nesting_budget":
+                        cand = bf["candidate"]
+                        clause = "no answer within the time budget / abnormal exit: %s" % "; ".join(bf["problems"])[:300]
                     elif r["name"] == "graph_cycles":
                         cand = bf["candidate"]
                         clause = "recursion <=> P0010 (%s): %s" % (cand.get("name", "")[:80], "; ".join(bf["problems"])[:300])
@@ -601,10 +604,10 @@ def main(argv):
                         cand = {"for": "bounded", "kind": "bounded_pair", "name": "%s, %s" % (bf["program"], bf["transformation"]),
                                 "original_text": bf["original_text"], "transformed_text": bf["input"], "fold_case": bf["fold_case"]}
                         clause = "%s under the transformation `%s` no longer parses to the same library / gets another verdict" % (bf["program"], bf["transformation"])
-                    f = {"obligation": "bounded/%s/%s" % (r["name"], hashlib.sha256(clause.encode()).hexdigest()[:8]), "kind": "bounded-stand-in", "item": None, "src": {"tokens_tile": "parser/src/token.rs (logos) + parser/src/lexer.rs", "lsp_tokens_history": "plc2x/src/lsp.rs + lsp_project.rs (server loop, lsp_server crate)", "lsp_history": "plc2x/src/lsp.rs + lsp_project.rs + project.rs (server loop, lsp_server crate)", "cli_contract": "plc2x/src/cli.rs + main.rs (clap, codespan)", "lsp_interleavings": "plc2x/src/lsp.rs (server loop, lsp_server crate)", "encodings_bytes": "plc2x/src/source.rs (encoding_rs) + lexer", "graph_cycles": "analyzer/src/xform_toposort_declarations.rs (petgraph toposort)"}.get(r["name"], "parser/src/parser.rs (peg grammar)"),
+                    f = {"obligation": "bounded/%s/%s" % (r["name"], hashlib.sha256(clause.encode()).hexdigest()[:8]), "kind": "bounded-stand-in", "item": None, "src": {"tokens_tile": "parser/src/token.rs (logos) + parser/src/lexer.rs", "lsp_tokens_history": "plc2x/src/lsp.rs + lsp_project.rs (server loop, lsp_server crate)", "lsp_history": "plc2x/src/lsp.rs + lsp_project.rs + project.rs (server loop, lsp_server crate)", "cli_contract": "plc2x/src/cli.rs + main.rs (clap, codespan)", "lsp_interleavings": "plc2x/src/lsp.rs (server loop, lsp_server crate)", "encodings_bytes": "plc2x/src/source.rs (encoding_rs) + lexer", "graph_cycles": "analyzer/src/xform_toposort_declarations.rs (petgraph toposort)", "nesting_budget": "parser/src/parser.rs (peg grammar) and the stages after it"}.get(r["name"], "parser/src/parser.rs (peg grammar)"),
                          "clause": clause, "unit": "bounded", "message": "bounded stand-in (%s) failed on the real binary" % r["name"],
                          "witness": {"candidate": cand, "observation": {k: v for k, v in bf.items() if k not in ("input", "original_text", "steps", "candidate")}, "how": "ironplcc built from /repo working tree"}, "replay": rp}
-                    json.dump({"property": pid, "obligation": f["obligation"], "kind": f["kind"], "function": {"tokens_tile": "TokenType::lexer (generated by derive(Logos)) + tokenize", "lsp_tokens_history": "ironplcc lsp (whole server) over an edit history", "lsp_history": "ironplcc lsp (whole server) over an edit history", "cli_contract": "ironplcc check / echo / tokenize (whole program)", "lsp_interleavings": "ironplcc lsp (whole server) over a message sequence", "encodings_bytes": "ironplcc check / tokenize on stored bytes", "graph_cycles": "ironplcc check (declaration graph + petgraph::algo::toposort)"}.get(r["name"], "plc_parser (generated by peg::parser!)"), "source": f["src"],
+                    json.dump({"property": pid, "obligation": f["obligation"], "kind": f["kind"], "function": {"tokens_tile": "TokenType::lexer (generated by derive(Logos)) + tokenize", "lsp_tokens_history": "ironplcc lsp (whole server) over an edit history", "lsp_history": "ironplcc lsp (whole server) over an edit history", "cli_contract": "ironplcc check / echo / tokenize (whole program)", "lsp_interleavings": "ironplcc lsp (whole server) over a message sequence", "encodings_bytes": "ironplcc check / tokenize on stored bytes", "graph_cycles": "ironplcc check (declaration graph + petgraph::algo::toposort)", "nesting_budget": "ironplcc check / echo (whole program)"}.get(r["name"], "plc_parser (generated by peg::parser!)"), "source": f["src"],
                                "clause": clause, "verifier": "bounded check of the real binary (tools/bounded.py)", "verifier_message": f["message"], "verifier_output": "",
                                "witness": f["witness"], "note": "replay with ./check %s --replay %s" % (pid, rp)}, open(rp, "w"), indent=1)
                     real_violations.append(f)
